@@ -431,6 +431,69 @@ def case_restem(c):
     return {'viol': viol, 'n': n, 'nontrivial': [engine.sha(c)], 'outcomes': ['restem/%d' % len(c['steps'])]}
 
 
+def case_from_data(c):
+    """A recording is used as the input of a second backend (from_data) that is asked for more / fewer / as many blocks as
+    the input holds: the files it writes must be well-formed and their pipeline-owned fields (SCANLEN, PKTSTOP, BLOCSIZE,
+    ...) must describe what was actually written."""
+    import setigen.voltage as sv
+    viol = []
+
+    def V(failure, detail, site='RawVoltageBackend.record'):
+        viol.append({'site': site, 'failure': failure, 'detail': detail})
+    wd = engine.workdir()
+    stem_in = os.path.join(wd, 'c04fi_%s' % engine.sha(c))
+    stem_out = os.path.join(wd, 'c04fo_%s' % engine.sha(c))
+    cfg = _cfg(dict(bpf=c['bpf'], P=8, num_chans=3, npol=c['npol'], bits=c['bits'], r=4, source='ant'))
+    be, src, dig, fb, rq = vharness.make_backend(cfg, seed=2)
+    for fn in guppi.list_files(stem_in) + guppi.list_files(stem_out):
+        os.remove(fn)
+    n = 0
+    try:
+        be.record(output_file_stem=stem_in, num_blocks=c['nb'], length_mode='num_blocks', header_dict={'DIRECTIO': c['dio']},
+                  load_template=False, verbose=False)
+        spb = cfg['r'] * cfg['M']
+        tbin = cfg['P'] / cfg['sample_rate']
+        for req in c['requests']:
+            ant = sv.Antenna(sample_rate=cfg['sample_rate'], fch1=0.0, ascending=True, num_pols=c['npol'], seed=4)
+            ant.x.add_constant_signal(f_start=150.0, drift_rate=0.0, level=0.2)
+            f2 = sv.PolyphaseFilterbank(num_taps=cfg['M'], num_branches=cfg['P'])
+            f2.estimate_channelized_stds(factor=50, seed=5)
+            b2 = sv.RawVoltageBackend.from_data(stem_in, ant, digitizer=sv.RealQuantizer(), filterbank=f2, start_chan=0, num_subblocks=2)
+            for fn in guppi.list_files(stem_out):
+                os.remove(fn)
+            b2.record(output_file_stem=stem_out, num_blocks=req, length_mode='num_blocks', header_dict={}, load_template=False, verbose=False)
+            n += 1
+            want = min(req, c['nb'])
+            blocks = [b for fn in guppi.list_files(stem_out) for b in guppi.parse_file(fn)]
+            if len(blocks) != want:
+                V('blocks_per_file', 'from_data recording of %d requested blocks on a %d-block input wrote %d blocks' % (req, c['nb'], len(blocks)))
+                continue
+            for bi, b in enumerate(blocks):
+                h = dict(b['header'])
+                for k in ('PKTSTOP', 'PKTSTART', 'PKTIDX', 'BLOCSIZE'):      # inherited input cards may be written as quoted text
+                    try:
+                        h[k] = int(str(h.get(k, -1)).strip())
+                    except ValueError:
+                        h[k] = -1
+                if not _relclose(float(h.get('SCANLEN', -1)), want * spb * tbin, 1e-12) or h.get('PKTSTOP', -1) - h.get('PKTSTART', 0) != want * spb \
+                        or h.get('PKTIDX') != bi * spb or h.get('BLOCSIZE') != vharness.block_size_of(cfg):
+                    V('owned_field', 'from_data recording (%d blocks requested, %d in the input, %d written): block %d has SCANLEN=%r '
+                      '(written length %r) PKTSTOP-PKTSTART=%r (%d) PKTIDX=%r' % (req, c['nb'], want, bi, h.get('SCANLEN'), want * spb * tbin,
+                                                                                  h.get('PKTSTOP', -1) - h.get('PKTSTART', 0), want * spb, h.get('PKTIDX')))
+                    break
+    except guppi.GuppiFormatError as e:
+        V('framing', 'from_data recording: %s' % e)
+    except Exception as e:
+        V('record_raised', 'from_data recording: %s: %s' % (type(e).__name__, e))
+    finally:
+        for fn in guppi.list_files(stem_in) + guppi.list_files(stem_out):
+            try:
+                os.remove(fn)
+            except OSError:
+                pass
+    return {'viol': viol, 'n': n, 'nontrivial': [engine.sha(c)], 'outcomes': ['from_data/%d' % c['nb']]}
+
+
 def run(ctx):
     T = ctx.tier == 'thorough'
     cases = []
@@ -503,6 +566,14 @@ def run(ctx):
                         if c3 is not b:
                             res.append(dict(box='F', steps=[a, b, c3]))
     ctx.pmap(case_restem, res)
+    # Box G: a recording used as the input of a second backend, with requests shorter / equal / longer than the input
+    fdc = []
+    for nb, bpf in ((1, 1), (3, 2), (4, 2)):
+        for npol in (1, 2):
+            for bits in (8, 4):
+                for dio in (0, 1):
+                    fdc.append(dict(box='G', nb=nb, bpf=bpf, npol=npol, bits=bits, dio=dio, requests=[nb, nb + 3, max(1, nb - 1)]))
+    ctx.pmap(case_from_data, fdc, chunk=1)
     return ctx.finish(
         rule='complete enumeration of box A (user cards 0..40 x DIRECTIO setting x template x source x value-kind '
              'rotation), box B (num_blocks 1..5 x blocks_per_file 1..3 x source x bits x DIRECTIO x template x '
